@@ -497,6 +497,7 @@ def propagate_new_locals(facts, stable=None):
             continue            # a function the rules never saw is analysed as written (or was inlined away)
         defs = {}
         bad = set()
+        refbound = set()
         mutated = set()
         for b in F['blocks']:
             for e in b['ev']:
@@ -508,7 +509,7 @@ def propagate_new_locals(facts, stable=None):
                     while isinstance(i, dict) and i.get('k') == 'cast':
                         i = i.get('e')
                     if '&' in (e.get('ty') or '') and isinstance(i, dict) and i.get('k') == 'var':
-                        bad.add(i['n'])
+                        refbound.add(i['n'])
                 elif e.get('k') == 'asg':
                     l = e.get('l')
                     while isinstance(l, dict) and l.get('k') == 'cast':
@@ -528,6 +529,8 @@ def propagate_new_locals(facts, stable=None):
                             last = _lastname(x.get('name'))
                             if not ((callee is not None and callee.get('const')) or last in PURE_LAST or last in ('find', 'count', 'compare', 'substr', 'rfind', 'find_first_of', 'find_last_of', 'AsString', 'operator==', 'operator!=', 'operator<')):
                                 mutated.add(r['n'])
+        # (a local that is itself a reference is an alias of what it was bound to: binding another reference to it changes nothing)
+        bad |= {n_ for n_ in refbound if not (len(defs.get(n_, [])) == 1 and '&' in (defs[n_][0].get('ty') or ''))}
         subst = {}
         for name, ds in defs.items():
             base = name.split('#')[0].split('@')[0]
